@@ -269,7 +269,7 @@ __CPROVER_ensures(IMPLIES(!g_ps_fault && PS_GA_IN(g_ps_dlo, store->data.size),
  * a short transfer is the last write */
 #define PS_SP_LOG(s, offset, n) \
   ((g_ps_nwr == 1 || g_ps_nwr == 2) \
-   && g_ps_w0a == g_ps_dlo + (offset) && g_ps_w0n == (n) && g_ps_w0r <= (n) \
+   && g_ps_w0a == (uint32_t)(g_ps_dlo + (offset)) && g_ps_w0n == (n) && g_ps_w0r <= (n) \
    && IMPLIES(g_ps_nwr == 2, g_ps_w0r == (n) && g_ps_w1a == g_ps_lo && g_ps_w1n == PS_CSZ(s) && g_ps_w1r <= PS_CSZ(s)) \
    && IMPLIES(!g_ps_fault, g_ps_nwr == 2 && g_ps_w1r == PS_CSZ(s)) \
    && PS_SP_OCTET(s, g_ps_f0, 0) && PS_SP_OCTET(s, g_ps_f1, 1) && PS_SP_OCTET(s, g_ps_f2, 2) && PS_SP_OCTET(s, g_ps_f3, 3))
